@@ -54,6 +54,8 @@ inductive Tok where
   | item (it : Item)                       -- one complete item
   | mapLen (n : Int)                       -- `EncodeMapLen(n)`: a map header, the entries follow
   | extHdr (code : Int) (len : Int)        -- `EncodeExtHeader(code, len)`: the body follows
+  | zeros (n : Int)                        -- `make([]byte, n)`: n zero bytes
+  | body (hdr : ExtHdr) (stream : List Item)  -- the bytes of an extension body, as the harness lexes them
   deriving Repr, Inhabited, BEq
 
 abbrev Buf := List Tok
@@ -62,6 +64,8 @@ def tokSize : Tok → Nat
   | .item it => encSize it
   | .mapLen n => seqHdr n.toNat
   | .extHdr _ n => extHdrSize n.toNat
+  | .zeros n => n.toNat
+  | .body _ _ => 0                         -- never measured (only buffers an encoder wrote are)
 
 def bufSize : Buf → Nat
   | [] => 0
@@ -183,6 +187,181 @@ def marshalStmt (E : Ext) (enc : Buf) (v : GoVal) (ty : Ty) : Res Buf :=
     | .err _ => .unmodelled
     | .panic w => .panic w
     | .unmodelled => .unmodelled
+
+/-! ## decoders -/
+
+/-- the outer decoder of `unmarshalUnknownValue`: positioned at one item; after `DecodeExtHeader`, at
+the body of an extension item; after the body was read, past it -/
+inductive Dec where
+  | atItem (it : Item)
+  | atBody (len : Nat) (hdr : ExtHdr) (stream : List Item)
+  | past
+  deriving Repr, Inhabited
+
+/-- a decoder over an extension body -/
+inductive RDec where
+  | fresh (hdr : ExtHdr) (stream : List Item)   -- nothing read yet
+  | items (stream : List Item)                  -- after the map header: the complete items not yet read
+  | lost                                        -- after a failed read (the source returns then), or not a body at all
+  deriving Repr, Inhabited
+
+/-- `dec.DecodeExtHeader()`: type code, body length, error -/
+def decodeExtHeader : Dec → Res (Dec × Int × Int × GoErr)
+  | .atItem (.ext code len hdr stream) => .ok (.atBody len hdr stream, code, len, none)
+  | .atItem _ => .ok (.past, 0, 0, some "not an extension item")
+  | _ => .unmodelled
+
+/-- `make([]byte, n)` -/
+def makeBytes (n : Int) : Res Buf := if n < 0 then .panic "makeslice: len out of range" else .ok [.zeros n]
+
+/-- `io.ReadAtLeast(dec.Buffered(), body, len(body))` for a `body` that is as long as the extension header
+said: the whole body (an item tree has all the bytes its headers announce); the decoder, the content of
+`body`, the count, the error -/
+def readBody (dec : Dec) (body : Buf) : Res (Dec × Buf × Int × GoErr) :=
+  match dec, body with
+  | .atBody len hdr stream, [.zeros n] => if n = len then .ok (.past, [.body hdr stream], n, none) else .unmodelled
+  | _, _ => .unmodelled
+
+/-- `msgpack.NewDecoder(bytes.NewReader(body))` -/
+def newBodyDecoder : Buf → RDec
+  | [.body hdr stream] => .fresh hdr stream
+  | _ => .lost
+
+/-- `rfnDec.DecodeMapLen()`: nil answers -1; an extension header is skipped by the library, which reads on
+out of step with the item structure (not modelled) -/
+def decodeMapLen : RDec → Res (RDec × Int × GoErr)
+  | .fresh (.map n) s => .ok (.items s, n, none)
+  | .fresh .nil s => .ok (.items s, -1, none)
+  | .fresh .other _ => .ok (.lost, 0, some "not a map")
+  | _ => .unmodelled
+
+/-- `rfnDec.DecodeInt64()` -/
+def decodeInt64 : RDec → Res (RDec × Int × GoErr)
+  | .items (k :: rest) =>
+    (match decInt64 k with
+     | some i => .ok (.items rest, i, none)
+     | none => .ok (.lost, 0, some "not an integer"))
+  | .items [] => .ok (.lost, 0, some "EOF")
+  | _ => .unmodelled
+/-- `rfnDec.DecodeInt()` (int is 64 bits wide) -/
+def decodeInt : RDec → Res (RDec × Int × GoErr) := decodeInt64
+
+/-- `rfnDec.DecodeBool()` -/
+def decodeBool : RDec → Res (RDec × Bool × GoErr)
+  | .items (v :: rest) =>
+    (match decBool v with
+     | some b => .ok (.items rest, b, none)
+     | none => .ok (.lost, false, some "not a boolean"))
+  | .items [] => .ok (.lost, false, some "EOF")
+  | _ => .unmodelled
+
+/-- `rfnDec.DecodeString()`: the str and bin families and nil; the bytes are not checked (the caller does) -/
+def decodeString : RDec → Res (RDec × GoStr × GoErr)
+  | .items (v :: rest) =>
+    (match v with
+     | .nil => .ok (.items rest, .text "", none)
+     | .str s => .ok (.items rest, .text s, none)
+     | .bin b =>
+       (match String.fromUTF8? (ByteArray.mk b.toArray) with
+        | some s => .ok (.items rest, .text s, none)
+        | none => .ok (.items rest, .raw b, none))
+     | .binj _ => .unmodelled
+     | _ => .ok (.lost, .text "", some "not a string"))
+  | .items [] => .ok (.lost, .text "", some "EOF")
+  | _ => .unmodelled
+
+/-- `utf8.ValidString(s)` -/
+def utf8ValidString : GoStr → Bool
+  | .text _ => true
+  | .raw b => (String.fromUTF8? (ByteArray.mk b.toArray)).isSome
+
+/-- `rfnDec.Skip()`: one complete item -/
+def decSkip : RDec → Res (RDec × GoErr)
+  | .items (_ :: rest) => .ok (.items rest, none)
+  | .items [] => .ok (.lost, some "EOF")
+  | _ => .unmodelled
+
+/-- `cty.DynamicVal` -/
+def dynamicVal : GoVal := .v ⟨.dyn, .unk .unref⟩
+/-- `cty.Zero` -/
+def zeroVal : GoVal := numberIntVal 0
+
+section Oracle
+variable [O : EqOracle]
+
+/-- `unmarshal(rfnDec, ty, nil)`: the hand-written decoder on the next complete item -/
+def unmarshalNested (E : Ext) (d : RDec) (ty : Ty) : Res (RDec × GoVal × GoErr) :=
+  match d with
+  | .items (v :: rest) =>
+    (match D17.unmarshal E v ty with
+     | .ok x => .ok (.items rest, .v x, none)
+     | .err c => .ok (.lost, dynamicVal, some c)
+     | .panic w => .panic w
+     | .unmodelled => .unmodelled)
+  | .items [] => .ok (.lost, dynamicVal, some "EOF")
+  | _ => .unmodelled
+
+/-- `v.Refine()` -/
+def valRefine (v : GoVal) : Res Builder := (toValue v).bind Refine.init
+def builderNull (b : Builder) : Res Builder := Refine.step b .null
+def builderNotNull (b : Builder) : Res Builder := Refine.step b .notNull
+/-- `b.StringPrefixFull(s)`: the builder normalises its argument (`cty.NormalizeString` = `E.norm`) -/
+def builderStringPrefixFull (E : Ext) (b : Builder) (s : GoStr) : Res Builder :=
+  match s with
+  | .text t => Refine.step b (.stringPrefixFull (E.norm t))
+  | .raw _ => .unmodelled
+def builderLenLower (b : Builder) (n : Int) : Res Builder := Refine.step b (.lenLower n)
+def builderLenUpper (b : Builder) (n : Int) : Res Builder := Refine.step b (.lenUpper n)
+
+/-- a `cty.Value` as the argument of a numeric-bound method -/
+def toNumArg : GoVal → Option NumArg
+  | .negInf => some .negInf
+  | .posInf => some .posInf
+  | .nilVal => none
+  | .v x =>
+    match x.v with
+    | .n m => some (.known m)
+    | .unk _ => some .unknown
+    | .null => some .null
+    | _ => none
+
+def builderNumLower (b : Builder) (v : GoVal) (inc : Bool) : Res Builder :=
+  match toNumArg v with
+  | some a => Refine.step b (.numLower a inc)
+  | none => .unmodelled
+def builderNumUpper (b : Builder) (v : GoVal) (inc : Bool) : Res Builder :=
+  match toNumArg v with
+  | some a => Refine.step b (.numUpper a inc)
+  | none => .unmodelled
+/-- `b.NewValue()` -/
+def builderNewValue (b : Builder) : Res GoVal := (Refine.newValue b).map .v
+
+end Oracle
+
+/-- the position a known whole number names -/
+def idxOf : GoVal → Option Nat
+  | .v x =>
+    (match x.v with
+     | .n m => (match m.toInt? with
+       | some i => if 0 ≤ i then some i.toNat else none
+       | none => none)
+     | _ => none)
+  | _ => none
+
+/-- `v.Index(i)` on a known tuple with a known index (anything else the source reaches is a list, map or
+unknown value: not modelled) -/
+def valIndex (v : GoVal) (i : GoVal) : Res GoVal :=
+  match v, idxOf i with
+  | .v ⟨.tuple tys, .seq ps⟩, some k =>
+    (match tys[k]?, ps[k]? with
+     | some t, some p => .ok (.v ⟨t, p⟩)
+     | _, _ => .panic "index out of range")
+  | _, _ => .unmodelled
+
+/-- the deferred `recover()` wrapper: a panic of the body becomes the handler's result -/
+def recoverWith {α : Type} (handler : Res α) : Res α → Res α
+  | .panic _ => handler
+  | r => r
 
 end MpGo
 end CtyModel
